@@ -14,6 +14,38 @@ CHECKS = {
             "concretised with random server states and run through the real valve::query; the decoded response and the per-game response "
             "must equal the expectation computed from the spec's table.",
             "Trusted: TLC, the harness's primitive codecs and generic layout interpreter, python3 bz2. Values are sampled (structure is exhaustive)."),
+    "C03": ("model_checking",
+            "TLA+ layout specification (ProtoLayout.tla: Java JSON members, Bedrock pong, legacy kick packets) enumerated by TLC and replayed "
+            "into the real query functions; auto-detect order: Minecraft.tla model-checked and replayed",
+            "TLC enumerates every shape of the Java status JSON (optional members present/absent, sample list shapes, description as string or "
+            "object), the Bedrock pong (6-12 fields) and the three legacy kick formats; each is concretised with random values (arbitrary Unicode "
+            "strings, full u32/i32 ranges), served through the scripted transport and the decoded status compared member by member (description "
+            "compared as JSON value).",
+            "Trusted: TLC, harness primitive codecs (VarInt, UTF-16BE), serde_json for building the status document."),
+    "C04": ("model_checking",
+            "TLA+ layout specification (ProtoLayout.tla: GameSpy 1 parts, GameSpy 2 tables, GameSpy 3 packets/sections) enumerated by TLC and "
+            "replayed into gamespy::{one,two,three}::{query,query_vars}",
+            "TLC enumerates players x teams x extra variables x optional per-player fields x part/packet counts x reported-vs-listed count; every "
+            "shape is concretised with random values and the full response (every player, every team, exactly the unused variables) compared.",
+            "Trusted: TLC, harness generic layout interpreter."),
+    "C05": ("model_checking",
+            "TLA+ layout specification (ProtoLayout.tla: Quake 1/2/3 status reply) enumerated by TLC and replayed into quake::{one,two,three}::query",
+            "TLC enumerates version x key spellings x version key x extra variables x 0..n player lines x address column x names with spaces; "
+            "each concretised with random values; variables, every player line and the unused entries are compared.",
+            "Trusted: TLC, harness generic layout interpreter."),
+    "C06": ("model_checking",
+            "TLA+ layout specification (ProtoLayout.tla: Unreal 2 string format by length byte / encoding / escape pattern; list sections) "
+            "enumerated by TLC and replayed into unreal2::query",
+            "TLC enumerates string length x encoding x colour-escape / control-character pattern (quick: 11 lengths, thorough: every length "
+            "0..126) and list shapes (rules, repeated keys, mutators, players, bots, 1-3 datagrams, GamePassword); the real unreal2::query must "
+            "return exactly the model's stripped strings and lists (lists without protocol order compared as multisets, D1).",
+            "Trusted: TLC, harness Unreal 2 string encoder."),
+    "C07": ("model_checking",
+            "TLA+ layout specification (ProtoLayout.tla: FFOW, Savage 2, JC2M, Mindustry; ValveLayout.tla for The Ship / Battalion 1944) "
+            "enumerated by TLC and replayed into each game's query function; Eco over a real loopback HTTP server",
+            "Every layout shape of the single-game formats is concretised with random values and the game's query result compared field by "
+            "field with the expectation computed from the spec's table.",
+            "Trusted: TLC, harness generic layout interpreter."),
     "C09": ("model_checking",
             "request templates in TLA+ (Templates.tla) + exchange specifications (ValveA2S.tla ...) model-checked with TLC "
             "(ChallengeEchoed, OnlySectionRequests); TLC behaviours replayed, every recorded send compared byte for byte",
